@@ -57,6 +57,7 @@ META = {
         "sometimes from the full box [-32,32]^n; 4 training states",
         "the controller blueprint is handed to the Instance through the "
         "public Controller constructor, wrapped by a call counter"],
+    "thorough_scale": 2,
     "shards": [4, 16],
     "technique": "property-based testing of histories: Hypothesis "
                  "rule-based state machine against a Python mirror model "
